@@ -86,7 +86,9 @@ func init() {
 					msg = hsAgree(cs)
 					vrt.UnseedPlainRand()
 				} else {
-					res := runSchedOnce(c.Seed*1000+uint64(sd), 60*time.Second, func() {
+					// seeds beyond the first two also pin every small random draw (certificate length
+					// menu, ...) to sd-2 mod n: seeds=9 covers each of the 7 certificate lengths
+					res := runSchedOnceDraw(c.Seed*1000+uint64(sd), 60*time.Second, sd-2, func() {
 						if m := hsAgree(cs); m != "" {
 							vrt.Fail("handshake-agreement", "%s", m)
 						}
@@ -121,7 +123,7 @@ func init() {
 		var jobs []vx.Job
 		for _, tb := range [][2]string{{"direct", "chrome"}, {"direct", "firefox"}, {"direct", "safari"}, {"cdn", "chrome"}} {
 			if tier == "quick" {
-				jobs = append(jobs, vx.Job{Scenario: "hs.agree", Params: vx.P("transport", tb[0], "browser", tb[1], "product", "star", "seeds", "2"), Weight: 5})
+				jobs = append(jobs, vx.Job{Scenario: "hs.agree", Params: vx.P("transport", tb[0], "browser", tb[1], "product", "star", "seeds", map[string]string{"direct": "9", "cdn": "2"}[tb[0]]), Weight: 5})
 			} else {
 				for _, m := range []string{"plain", "aes-256-gcm", "aes-128-gcm", "chacha20-poly1305"} {
 					for part := 0; part < 4; part++ {
